@@ -550,7 +550,11 @@ func genSpecValue(depth int, unsupported bool) *rapid.Generator[*spec.Value] {
 			}
 			return spec.Struct(names, vals)
 		default:
-			switch rapid.IntRange(0, 5).Draw(rt, "fixed") {
+			switch rapid.IntRange(0, 7).Draw(rt, "fixed") {
+			case 6:
+				return &spec.Value{T: spec.FixedType("Money"), Items: []*spec.Value{spec.IntOf(spec.TInt64, 1250), spec.String("EUR")}}
+			case 7:
+				return spec.Ptr(&spec.Value{T: spec.FixedType("Stamp"), Items: []*spec.Value{spec.IntOf(spec.TInt64, 86400), spec.String("UTC")}})
 			case 3:
 				inner := rapid.SampledFrom([]*spec.Value{spec.NilPtr(spec.FixedType("Inner")), spec.Ptr(&spec.Value{T: spec.FixedType("Inner"), Items: []*spec.Value{spec.String("t"), spec.IntOf(spec.TInt, 1)}})}).Draw(rt, "embPtr")
 				return &spec.Value{T: spec.FixedType("EmbedsPtr"), Items: []*spec.Value{inner, spec.String("lab")}}
